@@ -223,7 +223,8 @@ theorem genOk_delete (mr : MetaRules L A M S T) (cur : Obj L A M S T) (h : isI64
   · cases ho
 
 theorem genOk_step (sem : Sem A S A' S') (r : Reg) (hw : WellShaped r) (mr : MetaRules L A M S T) (zero : T)
-    (st : Option (Obj L A M S T)) (a : Api L A M S T) (h : GenOk st) : GenOk (apiStep sem r mr zero st a) := by
+    (acu : Endpoint → Bool)
+    (st : Option (Obj L A M S T)) (a : Api L A M S T) (h : GenOk st) : GenOk (apiStep sem r mr zero acu st a) := by
   cases st with
   | none =>
     cases a with
@@ -232,7 +233,9 @@ theorem genOk_step (sem : Sem A S A' S') (r : Reg) (hw : WellShaped r) (mr : Met
       simp only [apiStep]
       split
       · intro _ h'; cases h'
-      · exact genOk_create r mr zero o
+      · split
+        · intro _ h'; cases h'
+        · exact genOk_create r mr zero o
     | delete => intro _ h'; simp [apiStep] at h'
   | some cur =>
     have hcur := h cur rfl
@@ -263,22 +266,24 @@ theorem genOk_step (sem : Sem A S A' S') (r : Reg) (hw : WellShaped r) (mr : Met
             · exact hcur
 
 theorem genOk_run (sem : Sem A S A' S') (r : Reg) (hw : WellShaped r) (mr : MetaRules L A M S T) (zero : T)
+    (acu : Endpoint → Bool)
     (st : Option (Obj L A M S T)) (as : List (Api L A M S T)) (h : GenOk st) :
-    GenOk (apiRun sem r mr zero st as) := by
+    GenOk (apiRun sem r mr zero acu st as) := by
   induction as generalizing st with
   | nil => exact h
-  | cons a as ih => exact ih _ (genOk_step sem r hw mr zero st a h)
+  | cons a as ih => exact ih _ (genOk_step sem r hw mr zero acu st a h)
 
 omit [DecidableEq L'] in
 /-- **C20 over histories**: after ANY list of API requests from the empty state, any further accepted
     main-resource update obeys the generation rule and the status clause in the API's view — no hypothesis on
     the stored generation is left. -/
 theorem c20_history (r : Reg) (hw : WellShaped r) (hc : Consistent r) (mr : MetaRules L A M S T)
-    (v : View L A S T L' A' S' T') (zero : T) (hist : List (Api L A M S T)) (cur sub o' : Obj L A M S T)
-    (hreach : apiRun v.sem r mr zero none hist = some cur)
+    (v : View L A S T L' A' S' T') (zero : T) (acu : Endpoint → Bool)
+    (hist : List (Api L A M S T)) (cur sub o' : Obj L A M S T)
+    (hreach : apiRun v.sem r mr zero acu none hist = some cur)
     (h : beforeUpdate v.sem r .main mr sub cur = .ok o') :
     judgeMainUpdate r.served (v.obj cur) (v.obj o') = [] := by
-  have hok := genOk_run v.sem r hw mr zero none hist (fun _ h => by cases h) cur hreach
+  have hok := genOk_run v.sem r hw mr zero acu none hist (fun _ h => by cases h) cur hreach
   exact c20_judge_main r hw hc mr v sub cur o' hok h
 
 /-! ## The rest of the metadata is irrelevant
@@ -336,44 +341,32 @@ theorem c20_registrations_consistent : ∀ f ∈ KG.Gen.C20.registrations, Consi
 /-- At least one kind is served with a status subresource (the property's quantifier is not empty). -/
 theorem c20_registrations_some_served : ∃ f ∈ KG.Gen.C20.registrations, (regOf f).served = true := by decide
 
-/-! ## The hooks around `PrepareFor…` (regenerated source text of everything the harness does not run)
+/-! ## The hooks around `PrepareFor…` (regenerated, semantic: names and values, not spellings)
 
-The property depends on them implicitly: `Canonicalize` runs AFTER the comparison and the validation (the model's
-`canonicalize` is the identity because the Go body is empty), `AllowCreateOnUpdate`/`AllowUnconditionalUpdate`
-choose the path of a request (`apiStep`), `Validate*` return no errors, the status strategy declares nothing but
-`PrepareForUpdate` (everything else is the embedded main strategy's), and `NewResourceREST` sets no other member of
-the generic store (no `AfterUpdate`, `Decorator`, `BeginUpdate` …). A changed or added hook changes the regenerated
-list and breaks the obligation; the harness then searches with the enlarged budget. -/
+The property depends on them implicitly. Every KNOWN hook is tied behaviourally (the harness runs the stores' own
+strategies through `rest.BeforeCreate/BeforeUpdate` and the real store on both endpoints: an effectful `Canonicalize`,
+a rejecting `Validate*`, a changed `AllowUnconditionalUpdate` or `NamespaceScoped` show up as a difference or a judge
+failure), and `AllowCreateOnUpdate` of each endpoint flows into the model's `apiStep` as a regenerated constant —
+all theorems hold for either value. What only a fact can notice is a hook of a NEW kind (`WarningsOn…`,
+`CheckGracefulDelete`, `PrepareForDelete`, `BeginCreate` …), another member of the status strategy besides the wrapped
+main strategy, or another member of the generic store being set (`Decorator`, `AfterUpdate`, `BeginUpdate` …). -/
 
-theorem c20_hooks_pinned : KG.Gen.C20.hooks = [
-  ("NewDefaultRESTStrategy", "func(namespaced, subStatus bool) DefaultRESTStrategy { return DefaultRESTStrategy{ scheme.Scheme, names.SimpleNameGenerator, namespaced, subStatus, } }"),
-  ("DefaultRESTStrategy.NamespaceScoped", "func() bool { return s.namespaced }"),
-  ("DefaultRESTStrategy.AllowCreateOnUpdate", "func() bool { return true }"),
-  ("DefaultRESTStrategy.AllowUnconditionalUpdate", "func() bool { return true }"),
-  ("DefaultRESTStrategy.Canonicalize", "func(obj runtime.Object) { }"),
-  ("HasObjectMetaSpecStatus", "behavioural: run by the harness"),
-  ("DefaultRESTStrategy.PrepareForCreate", "behavioural: run by the harness"),
-  ("DefaultRESTStrategy.PrepareForUpdate", "behavioural: run by the harness"),
-  ("specEqual", "behavioural: run by the harness"),
-  ("semanticEqual", "behavioural: run by the harness"),
-  ("DefaultRESTStrategy.Validate", "func(ctx context.Context, obj runtime.Object) field.ErrorList { return field.ErrorList{} }"),
-  ("DefaultRESTStrategy.ValidateUpdate", "func(ctx context.Context, obj, old runtime.Object) field.ErrorList { return field.ErrorList{} }"),
-  ("NewDefaultStatusRESTStrategy", "func(namespaced bool) DefaultStatusRESTStrategy { return DefaultStatusRESTStrategy{ NewDefaultRESTStrategy(namespaced, true), } }"),
-  ("DefaultStatusRESTStrategy.PrepareForUpdate", "behavioural: run by the harness")] := rfl
+def knownHooks : List String :=
+  ["AllowCreateOnUpdate", "AllowUnconditionalUpdate", "Canonicalize", "NamespaceScoped", "PrepareForCreate",
+   "PrepareForUpdate", "Validate", "ValidateUpdate"]
 
-theorem c20_strategy_types_pinned : KG.Gen.C20.strategyTypes = [
-  ("DefaultRESTStrategy", "struct { runtime.ObjectTyper names.NameGenerator namespaced bool subStatus bool }"),
-  ("DefaultStatusRESTStrategy", "struct { rest.RESTCreateUpdateStrategy }")] := rfl
+theorem c20_hooks_known :
+    (∀ m ∈ KG.Gen.C20.mainStrategyMethods ++ KG.Gen.C20.statusStrategyMethods, m ∈ knownHooks) ∧
+    "PrepareForCreate" ∈ KG.Gen.C20.mainStrategyMethods ∧ "PrepareForUpdate" ∈ KG.Gen.C20.mainStrategyMethods ∧
+    "PrepareForUpdate" ∈ KG.Gen.C20.statusStrategyMethods := by decide
 
-theorem c20_store_members_pinned : KG.Gen.C20.storeMembers = [
-  ("store.NewFunc", "func"),
-  ("store.NewListFunc", "func"),
-  ("store.DefaultQualifiedResource", "schema.GroupResource{Group: internalGVK.Group, Resource: o.GVKR.Resource}"),
-  ("store.CreateStrategy", "o.RESTStrategy"),
-  ("store.UpdateStrategy", "o.RESTStrategy"),
-  ("store.DeleteStrategy", "o.RESTStrategy"),
-  ("store.InMemoryVersioner", "o.HubGroupVersion"),
-  ("statusStore.UpdateStrategy", "DefaultStatusRESTStrategy{o.RESTStrategy}")] := rfl
+theorem c20_status_strategy_wraps_main :
+    KG.Gen.C20.statusStrategyMembers = ["embedded rest.RESTCreateUpdateStrategy"] := by decide
+
+theorem c20_store_members_known :
+    KG.Gen.C20.storeMembers = ["CreateStrategy", "DefaultQualifiedResource", "DeleteStrategy", "InMemoryVersioner",
+      "NewFunc", "NewListFunc", "UpdateStrategy"] ∧
+    KG.Gen.C20.storeMembersAssigned = ["UpdateStrategy"] := by decide
 
 /-! ## Non-vacuity: the hypotheses are satisfiable by concrete, non-trivial requests
 
@@ -408,9 +401,12 @@ example : beforeUpdate witnessSem witnessReg .main witnessRules { witnessStored 
     { witnessStored with generation := 9223372036854775807 } = .error .invalid := by decide
 /-- a reachable state of `c20_history`: create (1), spec change (2), status update (2), DELETE kept by a
     finalizer (k8s bumps: 3), spec change on the terminating object (4) -/
-example : apiRun witnessSem witnessReg witnessRules 0 none [.create witnessStored, .update .main { witnessStored with spec := 8 },
+example : apiRun witnessSem witnessReg witnessRules 0 (fun _ => true) none [.create witnessStored, .update .main { witnessStored with spec := 8 },
     .update .status { witnessStored with status := 9 }, .delete, .update .main { witnessStored with spec := 10 }] =
     some { witnessStored with spec := 10, status := 9, generation := 4 } := by decide
+/-- a PUT to /status of a missing object creates it iff the status strategy allows create-on-update -/
+example : (apiRun witnessSem witnessReg witnessRules 0 (fun _ => true) none [.update .status witnessStored]).isSome = true ∧
+    apiRun witnessSem witnessReg witnessRules 0 (fun ep => ep != .status) none [.update .status witnessStored] = none := by decide
 /-- the judge is not trivially empty: it rejects the second defect's behaviour (5 → 6 on `{}`) … -/
 example : judgeMainUpdate true (witnessView.obj witnessStored)
     (witnessView.obj { witnessStored with annotations := some [], generation := 6 }) = [.mainKeep] := by decide
